@@ -266,7 +266,7 @@ def call(c):
     k = c["k"]
     if k == "ud":
         d = UnicodeDammit(bytes(c["b"]), list(c["known"]), smart_quotes_to=c["mode"])
-        return [d.unicode_markup, bool(d.contains_replacement_characters), d.original_encoding]
+        return [d.unicode_markup, bool(d.contains_replacement_characters), d.original_encoding, list(d.markup) if isinstance(d.markup, (bytes, bytearray)) else repr(d.markup)]
     if k == "det":
         return list(UnicodeDammit.detwingle(bytes(c["b"])))
     if k == "soup":
@@ -335,6 +335,16 @@ def expected_carrier(spelling: str) -> bool:
     return spelling.lower() in DOCUMENTED_CARRIERS
 
 
+def markup_attr_oracle(call, result):
+    """`UnicodeDammit.markup` is documented as the original markup with any byte-order mark stripped."""
+    if isinstance(result, dict) or len(result) < 4:
+        return None
+    want = list(strip_bom_oracle(bytes(call["b"])))
+    if result[3] != want:
+        return ("UnicodeDammit.markup is not the input with its byte-order mark stripped", want)
+    return None
+
+
 def ud_call_oracle(call, result, piece):
     """The property for one UnicodeDammit call whose first known encoding is a documented carrier (any letter case) with a
     mode set: in-order concatenation of each byte's conversion over the BOM-stripped input. Returns None if satisfied /
@@ -344,7 +354,7 @@ def ud_call_oracle(call, result, piece):
         return None
     if isinstance(result, dict):
         return ("the constructor raised " + result.get("exc", "?"), "a converted string")
-    u, repl, orig = result
+    u, repl, orig = result[:3]
     enc = known[0].lower()
     want, badb = whole_input_oracle(strip_bom_oracle(data), enc, mode, piece)
     if badb:
@@ -525,6 +535,19 @@ def run(ctx: Ctx):
             a = {"k": "ud", "b": [0x61, 0x93, 0x80 + r.randrange(32)], "known": [sp], "mode": r.choice(MODES)}
             b_ = {"k": "ud", "b": [0x93, 0x9F, 0x62], "known": [canon], "mode": mode}
             hists.append([a, b_] if r.random() < 0.7 else [b_, a, dict(b_, known=[sp])])
+    # every ordered pair of modes on the same carrier (a conversion remembered from an earlier call would show), through
+    # UnicodeDammit twice and with a BeautifulSoup document in between
+    for canon in DOCUMENTED_CARRIERS:
+        for m1 in MODES:
+            for m2 in MODES:
+                a = {"k": "ud", "b": [0x61, 0x91 + r.randrange(4), 0x85], "known": [canon], "mode": m1}
+                b_ = {"k": "ud", "b": [0x93, 0x80 + r.randrange(32), 0x62], "known": [r.choice([canon, canon.upper()])], "mode": m2}
+                mid = {"k": "soup", "b": list(b"<meta charset=" + canon.encode() + b"><p>\x93"), "enc": r.choice([None, canon])}
+                hists.append([a, b_] if r.random() < 0.5 else [a, mid, b_])
+    # detwingle several times in one process (chunks or positions remembered from an earlier call would show)
+    for _ in range(ctx.n(40, 300)):
+        hists.append([{"k": "det", "b": list(r.choice([rand_garbage(r), b"a\x93b", b"\xe2\x82\xac\x80", "caf\u00e9".encode(), b"\x93"]))}
+                      for _ in range(r.randrange(2, 5))])
     for _ in range(ctx.n(150, 1500)):
         hists.append([rand_call(r) for _ in range(r.randrange(2, 7))])
     uniq = {}
@@ -537,8 +560,19 @@ def run(ctx: Ctx):
             for data in (b"\x93", b"a\x80\x9fz", b"\xef\xbb\xbf<p>\x85", b"\x81\xe9"):
                 c = {"k": "ud", "b": list(data), "known": [sp], "mode": mode}
                 uniq.setdefault(json.dumps(c, sort_keys=True), c)
+    for enc in DOCUMENTED_CARRIERS:
+        for mode in MODES[1:]:
+            for b in range(0x80, 0xA0):
+                c = {"k": "ud", "b": [b], "known": [enc], "mode": mode}
+                uniq.setdefault(json.dumps(c, sort_keys=True), c)
     keys = list(uniq)
     fresh = dict(zip(keys, [x[0] for x in pristine([[uniq[k]] for k in keys])]))
+
+    def fresh_piece(b, enc, mode):
+        """conversion of the single byte b in a pristine process (so that state left by earlier calls cannot reach the oracle)"""
+        res = fresh[json.dumps({"k": "ud", "b": [b], "known": [enc], "mode": mode}, sort_keys=True)]
+        return None if isinstance(res, dict) else res[0]
+
     hres = pristine(hists)
     ctx.count("history:histories", len(hists))
     ctx.count("history:pristine-single-calls", len(keys))
@@ -549,7 +583,9 @@ def run(ctx: Ctx):
             ctx.case(("H", json.dumps(h[:i + 1], sort_keys=True)) if i > 0 else None)
             ctx.count(f"history:call:{c['k']}")
             if c["k"] == "ud" and i > 0:
-                bad = ud_call_oracle(c, got, piece)
+                bad = ud_call_oracle(c, got, fresh_piece) or markup_attr_oracle(c, got)
+                if bad and (ud_call_oracle(c, want, fresh_piece) or markup_attr_oracle(c, want)):
+                    bad = None      # the same call fails on its own: reported, minimal, by the pristine-ud stream below
                 if bad:
                     limited(ctx, bad[0] + " (after earlier calls in the same process)", stream="history-oracle",
                             case={"op": "history", "calls": h[:i + 1]}, expected=bad[1], observed=got if isinstance(got, dict) else got[0])
@@ -579,10 +615,13 @@ def run(ctx: Ctx):
             ctx.violation("the constructor raised " + res.get("exc", "?"), stream="pristine-ud", case={"op": "ud", **c},
                           expected="a result", observed=res)
             continue
-        bad = ud_call_oracle(c, res, piece)
+        bad = ud_call_oracle(c, res, fresh_piece)
         if bad:
             limited(ctx, bad[0], stream="pristine-ud", case={"op": "ud", **c}, expected=bad[1], observed=res[0])
-        lines.append(dammit_line(data, known, mode)); impl.append(show_dammit(*res)); cases.append({"op": "ud", **c})
+        bad = markup_attr_oracle(c, res)
+        if bad:
+            limited(ctx, bad[0], stream="pristine-ud", case={"op": "ud", **c}, expected=bad[1], observed=res[3])
+        lines.append(dammit_line(data, known, mode)); impl.append(show_dammit(*res[:3])); cases.append({"op": "ud", **c})
         # record what the code does with spellings the property does not name
         if len(data) == 1 and mode == "xml" and not expected_carrier(known[0]):
             spelling_obs[known[0]] = {"find_codec->original_encoding": res[2], "converted": res[0] != data.decode("latin-1") and "&" in (res[0] or "")}
@@ -620,16 +659,17 @@ def run(ctx: Ctx):
                                       expected=u0, observed=u, stream="smart-exhaustive")
                 # in context: the surrounding text is untouched
                 if enc in car and mode is not None:
-                    for pre, post in ((b"a", b"z"), (b"q&amp;", b";1")):
+                    for pre, post in ((b"a", b"z"), (b"q&amp;", b";1"), (data, b""), (b"\x93", b"\x94")):
                         d2 = pre + data + post
                         u2, repl2, o_u2 = real_dammit(d2, [enc], mode)
                         lines.append(dammit_line(d2, [enc], mode)); impl.append(show_dammit(u2, repl2, o_u2))
                         c2 = {"op": "smart", "enc": enc, "mode": mode, "bytes": list(d2)}
                         cases.append(c2)
                         ctx.case(("A2", enc, mode, d2))
-                        if u is not None and u2 != pre.decode() + u + post.decode():
-                            ctx.violation("surrounding text changed by the smart-quote conversion", case=c2,
-                                          expected=pre.decode() + u + post.decode(), observed=u2, stream="smart-exhaustive")
+                        want2 = whole_input_oracle(d2, enc, mode, piece)[0]
+                        if u is not None and u2 != want2:
+                            ctx.violation("in context: the result is not the in-order concatenation of each byte's conversion", case=c2,
+                                          expected=want2, observed=u2, stream="smart-exhaustive")
     ctx.extra["undefined_cp1252_bytes_observed"] = undefined_record
     corpus = [json.load(open(f)) | {"file": f.name} for f in sorted((CORPUS / "C19").glob("*.json"))]
     for v in corpus:
@@ -899,6 +939,19 @@ def run(ctx: Ctx):
             ctx.violation(f"detwingle raised {type(e).__name__} on a byte string", case={"op": "detwingle", "bytes": list(data)},
                           expected="a bytes result", observed=repr(e), stream="detwingle-garbage")
         ctx.count("detwingle:garbage")
+    # argument forms: bytearray / memoryview give the same bytes
+    for data in [b"a\x93b", b"\xe2\x82\xac", b"plain", b"\x80\xff\xc0", b""]:
+        want = real_detwingle(data)
+        for form in (bytearray, memoryview):
+            try:
+                got = bytes(U.detwingle(form(data)))
+            except Exception as e:
+                got = repr(e)
+            ctx.case(None)
+            ctx.count("detwingle:argform:" + form.__name__)
+            if got != want:
+                ctx.violation(f"detwingle({form.__name__}) differs from detwingle(bytes)", case={"op": "detwingle", "bytes": list(data), "form": form.__name__},
+                              expected=want.hex(), observed=got if isinstance(got, str) else got.hex(), stream="detwingle-argform")
     # argument checks
     for main, emb in [("utf8", "windows-1252"), ("UTF-8", "WINDOWS_1252"), ("utf-8", "windows_1252"), ("Utf8", "Windows-1252"),
                       ("latin-1", "windows-1252"), ("utf8", "iso-8859-1"), ("utf8", "cp1252"), ("utf_8", "windows-1252")]:
@@ -937,6 +990,11 @@ def run(ctx: Ctx):
 
 
 # ----------------------------------------------------------------------------------------------
+def pristine_piece(b, enc, mode):
+    res = pristine([[{"k": "ud", "b": [b], "known": [enc], "mode": mode}]])[0][0]
+    return None if isinstance(res, dict) else res[0]
+
+
 def replay(path):
     v = json.load(open(path))
     c = v["case"]
@@ -964,7 +1022,7 @@ def replay(path):
         print("last call, in a fresh process:", json.dumps(alone))
         bad = hist[-1] != alone
         if calls[-1]["k"] == "ud":
-            o = ud_call_oracle(calls[-1], hist[-1], lambda b, e, m: real_markup(bytes([b]), e, m)[0])
+            o = ud_call_oracle(calls[-1], hist[-1], pristine_piece) or markup_attr_oracle(calls[-1], hist[-1])
             if o:
                 print("property:", o[0], "; demanded:", o[1])
                 bad = True
@@ -972,7 +1030,7 @@ def replay(path):
     if op == "ud":
         res = pristine([[{k: c[k] for k in ("k", "b", "known", "mode")}]])[0][0]
         print("UnicodeDammit(%r, %r, smart_quotes_to=%r) ->" % (bytes(c["b"]), c["known"], c["mode"]), json.dumps(res))
-        o = ud_call_oracle(c, res, lambda b, e, m: real_markup(bytes([b]), e, m)[0])
+        o = ud_call_oracle(c, res, pristine_piece) or markup_attr_oracle(c, res)
         if o:
             print("property:", o[0], "; demanded:", o[1])
         return 1 if o else 0
